@@ -75,6 +75,7 @@ type ctx struct {
 	tmpN     int
 	curFunc  string
 	inst     map[string]bool // full paths of the files being instrumented (their sync types are substituted)
+	regTypes map[*types.TypeName]bool // named types whose pointers are keys of ranged-over maps
 }
 
 func main() {
@@ -193,6 +194,29 @@ func main() {
 	for k, v := range overlay {
 		result[k] = v
 	}
+	regTypes := map[*types.TypeName]bool{}
+	for _, base := range strings.Split(*fFiles, ",") {
+		f := byBase[strings.TrimSpace(base)]
+		if f == nil {
+			continue
+		}
+		ast.Inspect(f, func(n ast.Node) bool {
+			rs, ok := n.(*ast.RangeStmt)
+			if !ok {
+				return true
+			}
+			if tv, ok := info.Types[rs.X]; ok && tv.Type != nil {
+				if m, ok := tv.Type.Underlying().(*types.Map); ok {
+					if p, ok := m.Key().(*types.Pointer); ok {
+						if nm, ok := p.Elem().(*types.Named); ok {
+							regTypes[nm.Obj()] = true
+						}
+					}
+				}
+			}
+			return true
+		})
+	}
 	for _, base := range strings.Split(*fFiles, ",") {
 		base = strings.TrimSpace(base)
 		if base == "" {
@@ -202,7 +226,7 @@ func main() {
 		if f == nil {
 			die("file %s is not part of package %s under tags %q", base, target.ImportPath, *fTags)
 		}
-		c := &ctx{fset: fset, info: info, pkg: pkg, file: base, blocking: blocking, noYield: noYield, inst: instSet}
+		c := &ctx{fset: fset, info: info, pkg: pkg, file: base, blocking: blocking, noYield: noYield, inst: instSet, regTypes: regTypes}
 		c.rewriteFile(f)
 		var buf bytes.Buffer
 		if err := printer.Fprint(&buf, fset, f); err != nil {
@@ -361,7 +385,39 @@ func (c *ctx) rewriteFile(f *ast.File) {
 			})
 		}
 	}
-	// imports
+	// creation sites of objects whose pointers key ranged-over maps get a serial number
+	if len(c.regTypes) > 0 {
+		c.wrapRegs(reflect.ValueOf(f))
+	}
+	// imports that became unused through the rewrites are blanked
+	usedNames := map[string]bool{}
+	ast.Inspect(f, func(n ast.Node) bool {
+		if se, ok := n.(*ast.SelectorExpr); ok {
+			if id, ok := se.X.(*ast.Ident); ok {
+				usedNames[id.Name] = true
+			}
+		}
+		return true
+	})
+	for _, im := range f.Imports {
+		path := strings.Trim(im.Path.Value, `"`)
+		name := ""
+		if im.Name != nil {
+			name = im.Name.Name
+		} else {
+			for _, ip := range c.pkg.Imports() {
+				if ip.Path() == path {
+					name = ip.Name()
+				}
+			}
+		}
+		if name == "" || name == "_" || name == "." {
+			continue
+		}
+		if !usedNames[name] && path != "sync" {
+			im.Name = ast.NewIdent("_")
+		}
+	}
 	syncName := ""
 	for _, im := range f.Imports {
 		if im.Path.Value == `"sync"` {
@@ -580,6 +636,19 @@ func (c *ctx) scan(n ast.Node) (o ops) {
 				}
 				if c.blocking[fnm] {
 					o.sync, o.block = true, true
+				}
+				// unseeded global RNGs -> tape
+				if strings.HasSuffix(ob.Pkg().Path(), "/pkg/fastrand") || ob.Pkg().Path() == "math/rand" || ob.Pkg().Path() == "math/rand/v2" {
+					if sig, ok := ob.Type().(*types.Signature); ok && sig.Recv() == nil {
+						switch ob.Name() {
+						case "Intn", "IntN":
+							x.Fun = &ast.SelectorExpr{X: ast.NewIdent("verifsim"), Sel: ast.NewIdent("RandIntn")}
+							c.used = true
+						case "Int63n", "Int64N":
+							x.Fun = &ast.SelectorExpr{X: ast.NewIdent("verifsim"), Sel: ast.NewIdent("RandInt63n")}
+							c.used = true
+						}
+					}
 				}
 			}
 		}
@@ -1192,4 +1261,47 @@ func (c *ctx) rewriteSelect(s *ast.SelectStmt, label *ast.Ident) []ast.Stmt {
 	}
 	pre = append(pre, swStmt)
 	return []ast.Stmt{&ast.BlockStmt{List: pre}}
+}
+
+var exprIface = reflect.TypeOf((*ast.Expr)(nil)).Elem()
+
+// wrapRegs walks the AST generically and replaces `&T{...}` (T in regTypes) held
+// in any ast.Expr-typed field or slice element by verifsim.Reg(&T{...}).
+func (c *ctx) wrapRegs(v reflect.Value) {
+	switch v.Kind() {
+	case reflect.Pointer:
+		if !v.IsNil() {
+			c.wrapRegs(v.Elem())
+		}
+	case reflect.Interface:
+		if v.IsNil() {
+			return
+		}
+		if v.Type() == exprIface {
+			if ue, ok := v.Interface().(*ast.UnaryExpr); ok && ue.Op == token.AND {
+				if cl, ok := ast.Unparen(ue.X).(*ast.CompositeLit); ok {
+					if tv, ok := c.info.Types[cl]; ok && tv.Type != nil {
+						if nm, ok := tv.Type.(*types.Named); ok && c.regTypes[nm.Obj()] && v.CanSet() {
+							c.wrapRegs(reflect.ValueOf(cl))
+							v.Set(reflect.ValueOf(ast.Expr(simCall("Reg", ue))))
+							c.used = true
+							return
+						}
+					}
+				}
+			}
+		}
+		c.wrapRegs(v.Elem())
+	case reflect.Struct:
+		if v.Type() == reflect.TypeOf(ast.Object{}) || v.Type() == reflect.TypeOf(ast.Scope{}) {
+			return
+		}
+		for i := 0; i < v.NumField(); i++ {
+			c.wrapRegs(v.Field(i))
+		}
+	case reflect.Slice:
+		for i := 0; i < v.Len(); i++ {
+			c.wrapRegs(v.Index(i))
+		}
+	}
 }
